@@ -130,11 +130,13 @@ impl RelatedEntities {
         );
 
         // Remove all matching edges of this type.
+        // The graph is undirected, so skip edges of the opposite relation (from target to source).
         self.remove_buffer.extend(
             self.graph
                 .edges_connecting(source_node, target_node)
                 .filter(|e| *e.weight() == type_id)
-                .map(|e| e.id()),
+                .map(|e| e.id())
+                .filter(|&e| self.graph.edge_endpoints(e) == Some((source_node, target_node))),
         );
 
         for edge in self.remove_buffer.drain(..) {
